@@ -1,4 +1,5 @@
 """C11 -- exclude / preserve policies touch only the offending elements"""
+from decimal import Decimal
 from typing import Dict, FrozenSet, List, Set, Tuple
 
 import utype
@@ -224,12 +225,28 @@ class FAddP(Schema):
     r: int = 0
 
 
-def _val(V, name):
-    k = V.pick(name + '_kind', ['absent', 'int', 'bad', 'num'])
+class FAddD(Schema):
+    __options__ = Options(addition=Decimal, invalid_values='exclude')
+    r: int = 0
+
+
+class FAddDP(Schema):
+    __options__ = Options(addition=Decimal, invalid_values='preserve')
+    r: int = 0
+
+
+INF = float('inf')
+
+
+def _val(V, name, extra=()):
+    k = V.pick(name + '_kind', ['absent', 'int', 'bad', 'num'] + list(extra))
     if k == 'absent':
         return None, False
     if k == 'int':
         return V.int(name, -3, 3), True
+    if k == 'inf':
+        # int(inf) raises OverflowError, Decimal('x') raises InvalidOperation: failures that are neither TypeError nor ValueError
+        return INF, True
     return ('x' if k == 'bad' else '5'), True
 
 
@@ -291,13 +308,14 @@ def fields(V):
 
 
 @ob('extra-keys', marks=['offender', 'clean'], budget=(60, 200),
-    bounds='Schema with addition=int and invalid_values exclude / preserve; up to 2 extra keys, each value solver int | '
-           '"x" | "5"', out='addition types other than int')
+    bounds='Schema with addition=int / addition=Decimal and invalid_values exclude / preserve; up to 2 extra keys, each value solver int | '
+           '"x" | "5" | float inf (whose conversion fails with OverflowError / InvalidOperation rather than TypeError / ValueError)', out='other addition types')
 def extra_keys(V):
-    cls = V.pick('cls', [FAdd, FAddP])
+    cls = V.pick('cls', [FAdd, FAddP, FAddD, FAddDP])
+    AT = Decimal if cls in (FAddD, FAddDP) else int
     data = {}
     for n in ('p', 'q'):
-        v, has = _val(V, n)
+        v, has = _val(V, n, extra=('inf',))
         if has:
             data[n] = v
     r = attempt(cls, **data)
@@ -306,13 +324,12 @@ def extra_keys(V):
     want = {'r': 0}
     offender = False
     for n, v in data.items():
-        if isinstance(v, int):
-            want[n] = v
-        elif v == '5':
-            want[n] = 5
+        c = alone(AT, v)
+        if c[0] == 'ok':
+            want[n] = c[1]
         else:
             offender = True
-            if cls is FAddP:
+            if cls in (FAddP, FAddDP):
                 want[n] = v
     got = dict(r[1])
     V.check(set(got) == set(want) and all(same(got[k], want[k]) for k in want), 'extra:value', d)
